@@ -382,25 +382,6 @@ Fixpoint loopback_and_mapping (c : cfg) (nl nc : nat) (bound_ok : bool) (tr : li
   end.
 
 (* ---- input classes of the open findings ---- *)
-(* C17-F1: version 3 together with an RSA1024 key is only refused inside listen(), after the bind *)
-Definition raw_ctor (r : route) : option ctor_args :=
-  match r with RCtor a => Some a | RTor t => Some (tor_ctor t) | RStr s => str_ctor s end.
-Definition late_refusal_v3_rsa_key (c : cfg) : bool :=
-  match raw_ctor (g_route c) with
-  | Some a => (match a_ver a with V3 => true | _ => false end) && (match a_key a with KRsa => true | _ => false end)
-  | None => false
-  end.
-
-(* C17-F2: an onion: string with hiddenServiceDir= and singleHop=true launches / contacts Tor before it is refused *)
-Definition string_refused_after_tor_started (c : cfg) : bool :=
-  match g_route c with
-  | RStr s => match str_ctor s with
-              | Some a => a_hsdir a && tri_true (a_single a)
-              | None => false
-              end
-  | _ => false
-  end.
-
 (* C17-F3: the control connection is lost while waiting for the descriptor upload *)
 Fixpoint disconnect_while_waiting_from (answered : bool) (ops : list lop) : bool :=
   match ops with
